@@ -14,7 +14,7 @@ import (
 )
 
 func init() {
-	for _, id := range []string{"C01", "C02", "C03", "C04", "C05", "C06", "C08", "C09", "C10", "C13"} {
+	for _, id := range []string{"C01", "C02", "C03", "C04", "C05", "C06", "C07", "C08", "C09", "C10", "C13"} {
 		id := id
 		core.Register(id, "model_checking", func(c *core.Ctx) error { return runTL1(c, id) })
 	}
@@ -44,6 +44,13 @@ type stepRes struct {
 	} `json:"dump"`
 	Alloc uint64 `json:"alloc"`
 	Ns    int64  `json:"ns"`
+	Fn    map[string]struct {
+		Panic    string `json:"panic"`
+		Err      string `json:"err"`
+		Consumed int    `json:"consumed"`
+		Out      []int  `json:"out"`
+		Text     string `json:"text"`
+	} `json:"fn"`
 }
 
 type scriptRes struct {
@@ -86,6 +93,10 @@ type valPayload struct {
 	Bad    bool   `json:"bad"`
 	Accept bool   `json:"accept"`
 	Dec2OK bool   `json:"dec2ok"`
+	Req    []int  `json:"req"`
+	Res1   []int  `json:"res1"`
+	Res2   []int  `json:"res2"`
+	ResJ   *JT    `json:"resj"`
 	From   *encs  `json:"from"`
 	To     *encs  `json:"to"`
 	Boxed  bool   `json:"boxed"`
@@ -128,9 +139,12 @@ func runTL1(c *core.Ctx, prop string) error {
 	if prop == "C13" {
 		k, kre = c.Pick(2, 3), c.Pick(3, 4)
 	}
-	kmut2 := 0
+	kmut2, kfn := 0, 0
 	if prop == "C08" {
 		k, kmut, kmut2 = 1, 2, 2
+	}
+	if prop == "C07" {
+		k, kfn = c.Pick(1, 2), c.Pick(2, 3)
 	}
 	if prop == "C02" {
 		k, kmut = c.Pick(1, 2), c.Pick(2, 3)
@@ -143,7 +157,7 @@ func runTL1(c *core.Ctx, prop string) error {
 			cp.Sanity = true // the allocation clause is about generated code with length sanity checks enabled
 			cp.Name += "-sane"
 		}
-		if err := runCorpusTL1(c, prop, cp, k, kmut, kjson, kre, kmut2); err != nil {
+		if err := runCorpusTL1(c, prop, cp, k, kmut, kjson, kre, kmut2, kfn); err != nil {
 			return err
 		}
 	}
@@ -152,7 +166,7 @@ func runTL1(c *core.Ctx, prop string) error {
 	return nil
 }
 
-func runCorpusTL1(c *core.Ctx, prop string, cp Corpus, k, kmut, kjson, kre, kmut2 int) error {
+func runCorpusTL1(c *core.Ctx, prop string, cp Corpus, k, kmut, kjson, kre, kmut2, kfn int) error {
 	b, err := Build(c, cp)
 	if err != nil {
 		return err
@@ -175,7 +189,7 @@ func runCorpusTL1(c *core.Ctx, prop string, cp Corpus, k, kmut, kjson, kre, kmut
 	}
 	c.Logf("corpus %s: %d top-level TL1 types, K=%d KMut=%d", cp.Name, len(tops), k, kmut)
 	var firstErr error
-	nVal, nBytes, nAlt, nEdge, nRe, acc, rej, unk := 0, 0, 0, 0, 0, 0, 0, 0
+	nVal, nBytes, nAlt, nEdge, nRe, nFn, acc, rej, unk := 0, 0, 0, 0, 0, 0, 0, 0, 0
 	onEmit := func(raw json.RawMessage) {
 		if firstErr != nil {
 			return
@@ -248,6 +262,25 @@ func runCorpusTL1(c *core.Ctx, prop string, cp Corpus, k, kmut, kjson, kre, kmut
 				nVal++
 			case "bytes", "bytes2":
 				nBytes++
+			}
+			return
+		}
+		if p.Kind == "fn" {
+			nFn++
+			if prop != "C07" {
+				return
+			}
+			fs, err := replayFn(c, b, &p)
+			if err != nil {
+				firstErr = err
+				return
+			}
+			for _, f := range fs {
+				c.Violate(fmt.Sprintf("%s/%s/%s/%s", f.class, cp.Name, p.Tn, negKey(&p, f)), fmt.Sprintf("function %s: %s", p.Tn, f.what),
+					map[string]any{"corpus": cp, "payload": p})
+			}
+			if nFn%97 == 1 {
+				c.Sample(map[string]any{"corpus": cp.Name, "function": p.Tn, "request": hexs(p.Req), "result_tl1": hexs(p.Res1), "result_tl2": hexs(p.Res2)})
 			}
 			return
 		}
@@ -357,7 +390,7 @@ func runCorpusTL1(c *core.Ctx, prop string, cp Corpus, k, kmut, kjson, kre, kmut
 	res, err := c.TLC(core.TLCOpts{Module: "MC_Codec", Cfg: "MC_Codec.cfg", Workers: 8, Timeout: 20 * time.Minute,
 		Files:  map[string][]byte{"SchemaData.tla": b.SchemaModule(tops)},
 		OnEmit: onEmit,
-		Consts: map[string]string{"SANITY": tlaBool(cp.Sanity), "MAXLEN": "2", "LONGSTR": "{}", "K": strconv.Itoa(k), "KMUT": strconv.Itoa(kmut), "KJSON": strconv.Itoa(kjson), "KRE": strconv.Itoa(kre), "KMUT2": strconv.Itoa(kmut2), "EDGES": tlaBool(prop == "C09")}})
+		Consts: map[string]string{"SANITY": tlaBool(cp.Sanity), "MAXLEN": "2", "LONGSTR": "{}", "K": strconv.Itoa(k), "KMUT": strconv.Itoa(kmut), "KJSON": strconv.Itoa(kjson), "KRE": strconv.Itoa(kre), "KMUT2": strconv.Itoa(kmut2), "KFN": strconv.Itoa(kfn), "EDGES": tlaBool(prop == "C09")}})
 	if err != nil {
 		return err
 	}
@@ -377,12 +410,16 @@ func runCorpusTL1(c *core.Ctx, prop string, cp Corpus, k, kmut, kjson, kre, kmut
 	c.Add("alternative_json_forms", nAlt)
 	c.Add("history_edges", nEdge)
 	c.Add("tl2_reencodings", nRe)
+	c.Add("function_results", nFn)
 	c.Add("impl_accepted", acc)
 	c.Add("impl_rejected", rej)
 	c.Add("outside_model", unk)
 	c.Add("traces_validated_against_impl", 0)
 	if prop == "C08" {
 		acc, rej = c.Get("c08_accepted"), c.Get("c08_rejected")
+	}
+	if prop == "C07" && nFn == 0 && cp.Name != "probe" {
+		c.Logf("corpus %s has no functions", cp.Name)
 	}
 	if (prop == "C02" || prop == "C08") && (acc == 0 || rej == 0) {
 		return fmt.Errorf("vacuous mutation run on %s: accepted=%d rejected=%d", cp.Name, acc, rej)
@@ -412,6 +449,7 @@ var classOf = map[string]map[string]bool{
 	"C04": {"conv": true},
 	"C05": {"json": true},
 	"C06": {"jsonalt": true},
+	"C07": {"fn": true},
 	"C08": {"total": true},
 	"C09": {"reuse": true},
 	"C10": {"bytesvar": true},
@@ -835,4 +873,79 @@ func total08(c *core.Ctx, b *Built, cp Corpus, p *valPayload, firstErr *error) {
 			run("readj/"+m, len(m), map[string]any{"op": "readj", "text": m})
 		}
 	}
+}
+
+// replayFn (C07): with the request read, each of the six result transcoders must produce
+// exactly what the specification prescribes for the result value under the request's parameters.
+func replayFn(c *core.Ctx, b *Built, p *valPayload) ([]finding, error) {
+	var fs []finding
+	var sb strings.Builder
+	if err := p.ResJ.Render(&sb); err != nil {
+		return nil, err
+	}
+	text := sb.String()
+	step := map[string]any{"op": "fnres", "in": p.Res1, "text": text}
+	if p.HasTL2 {
+		step["in2"] = p.Res2
+	}
+	r, err := b.script(p.Tn, false, map[string]any{"op": "read1b", "in": p.Req}, step)
+	if err != nil {
+		return nil, err
+	}
+	c.Add("evaluations", 1)
+	key := hexs(p.Req) + "/" + hexs(p.Res1)
+	if r.Steps[0].Err != "" || r.Steps[0].Panic != "" {
+		return []finding{{"fn", key, "request rejected: " + r.Steps[0].Err + r.Steps[0].Panic}}, nil
+	}
+	fn := r.Steps[1].Fn
+	if fn == nil {
+		return []finding{{"fn", key, "no transcoders: " + r.Steps[1].Err + r.Steps[1].Panic}}, nil
+	}
+	bad := func(name, what string) {
+		fs = append(fs, finding{"fn", name + "/" + key, fmt.Sprintf("request %s, result %s: transcoder %s: %s", hexs(p.Req), hexs(p.Res1), name, what)})
+	}
+	checkBytes := func(name string, want []int, inLen int) {
+		x, ok := fn[name]
+		switch {
+		case !ok:
+			bad(name, "missing")
+		case x.Panic != "":
+			bad(name, "panic: "+x.Panic)
+		case x.Err != "":
+			bad(name, "error on a valid result: "+x.Err)
+		case !eqInts(x.Out, want):
+			bad(name, fmt.Sprintf("writes %s, spec %s", hexs(x.Out), hexs(want)))
+		case inLen >= 0 && x.Consumed != inLen:
+			bad(name, fmt.Sprintf("consumed %d of %d", x.Consumed, inLen))
+		}
+	}
+	checkJSON := func(name string, inLen int) {
+		x, ok := fn[name]
+		switch {
+		case !ok:
+			bad(name, "missing")
+		case x.Panic != "":
+			bad(name, "panic: "+x.Panic)
+		case x.Err != "":
+			bad(name, "error on a valid result: "+x.Err)
+		default:
+			if got, err := parseJSON(x.Text); err != nil {
+				bad(name, "invalid JSON "+x.Text)
+			} else if err := p.ResJ.Match(got, "$"); err != nil {
+				bad(name, fmt.Sprintf("writes %s, spec %s (%v)", x.Text, text, err))
+			}
+			if x.Consumed != inLen {
+				bad(name, fmt.Sprintf("consumed %d of %d", x.Consumed, inLen))
+			}
+		}
+	}
+	checkJSON("1j", len(p.Res1))
+	checkBytes("j1", p.Res1, -1)
+	if p.HasTL2 {
+		checkBytes("12", p.Res2, len(p.Res1))
+		checkBytes("21", p.Res1, len(p.Res2))
+		checkJSON("2j", len(p.Res2))
+		checkBytes("j2", p.Res2, -1)
+	}
+	return fs, nil
 }
